@@ -197,24 +197,34 @@ def loop_element(prog, chk):
     # (b) while: evaluated in the loop, before the body, false edge leaves
     wh = [(bb, t) for (bb, t, c) in evals if _variant_of_arg(b, t["args"][0]) == "While" and c.path.endswith("eval_condition")]
     ok = False
+    unread = False
     if len(wh) == 1 and wh[0][0] in blocks:
         wb, wt = wh[0]
         edges = _cond_edges(b, wt)
         if edges:
             tt, ft = edges
             ok = ft not in blocks and _reaches_before(b, wb, bb_body, blocks, h) and not _reaches_before(b, bb_body, wb, blocks, h)
-    if recognisable:
+        else:
+            unread = True  # the outcome is not branched on where it is computed (handed on as the value of a helper)
+    if recognisable and unread:
+      chk.undecided("A13.loop-skeleton", "LoopElement:while", where, "the outcome of the `while` condition is not branched on directly (it is the result of a helper merged with the other loop kinds): which edge leaves the loop is not read here")
+    elif recognisable:
       chk.ob(ok, "A13.loop-skeleton", "LoopElement:while", where, "`while` is tested before the body in every pass; a zero value leaves the loop", "`while` is not tested before each pass, or its false edge does not leave the loop")
     # (c) until: after the body, true edge leaves
     un = [(bb, t) for (bb, t, c) in evals if _variant_of_arg(b, t["args"][0]) == "Until" and c.path.endswith("eval_condition")]
     ok = False
+    unread = False
     if len(un) == 1 and un[0][0] in blocks:
         ub, ut = un[0]
         edges = _cond_edges(b, ut)
         if edges:
             tt, ft = edges
             ok = tt not in blocks and b.dominates(bb_body, ub)
-    if recognisable:
+        else:
+            unread = True
+    if recognisable and unread:
+      chk.undecided("A13.loop-skeleton", "LoopElement:until", where, "the outcome of the `until` condition is not branched on directly (it is the result of a helper merged with the other loop kinds): which edge leaves the loop is not read here")
+    elif recognisable:
       chk.ob(ok, "A13.loop-skeleton", "LoopElement:until", where, "`until` is tested after the body (at least one pass); a non-zero value leaves the loop", "`until` is not tested after the body, or its true edge does not leave the loop")
     # (d) count test at the top
     ok = False
